@@ -115,7 +115,7 @@ func (r *Reader) chunks(pos int64, limit int64) []requested {
 
 // request causes a reader to request chunks from a torrent.
 func (r *Reader) request(pos int64, limit int64) (<-chan struct{}, error) {
-	if r.requestedIndex >= 0 {
+	if r.requestedIndex >= 0 && pos >= 0 {
 		index := uint32(pos / int64(r.torrent.Pieces.PieceSize()))
 		if r.requestedIndex == int(index) {
 			return r.ch, nil
